@@ -1145,6 +1145,28 @@ class SymBytes:
             return SymBytes(self.to_bytes().strip(chars))
         raise EngineUnsupported("strip on symbolic bytes")
 
+    def rstrip(self, chars=None):
+        if self.concrete():
+            return SymBytes(self.to_bytes().rstrip(chars))
+        if chars is None:
+            raise EngineUnsupported("rstrip() of whitespace on symbolic bytes")
+        chars = list(chars)
+        n = len(self.items)
+        while n > 0 and bool(sym_or(*[self.items[n - 1] == c for c in chars])):   # forks per trailing byte
+            n -= 1
+        return SymBytes(self.items[:n])
+
+    def lstrip(self, chars=None):
+        if self.concrete():
+            return SymBytes(self.to_bytes().lstrip(chars))
+        if chars is None:
+            raise EngineUnsupported("lstrip() of whitespace on symbolic bytes")
+        chars = list(chars)
+        k = 0
+        while k < len(self.items) and bool(sym_or(*[self.items[k] == c for c in chars])):
+            k += 1
+        return SymBytes(self.items[k:])
+
     def startswith(self, p):
         p = list(p)
         if len(p) > len(self.items):
